@@ -68,26 +68,29 @@ type interpreter struct {
 	runtimeErrorString types.Type
 
 	// decisions
-	prefix       []Decision
-	pos          int
-	trace        []Decision
-	alts         [][]Decision
-	pc           []*smt.Term
-	violations   []*Violation
-	cover        map[string]bool
-	funcs        map[string]bool
-	steps        int64
-	unknowns     int
-	inconclusive []string
-	nondets      []nondet
-	nondetCount  map[string]int
-	replayModel  map[string]string
-	replayEnv    map[string]*big.Int
-	evalMemo     map[int]*big.Int
-	obs          []string
-	allocBudget  int64 // -1 = off
-	stamp        int
-	ghostState   map[string]value
+	prefix        []Decision
+	pos           int
+	trace         []Decision
+	alts          [][]Decision
+	pc            []*smt.Term
+	violations    []*Violation
+	cover         map[string]bool
+	funcs         map[string]bool
+	steps         int64
+	unknowns      int
+	inconclusive  []string
+	nondets       []nondet
+	nondetCount   map[string]int
+	replayModel   map[string]string
+	replayEnv     map[string]*big.Int
+	evalMemo      map[int]*big.Int
+	obs           []string
+	allocBudget   int64 // -1 = off
+	stamp         int
+	ghostState    map[string]value
+	hash          *hashState
+	usedHashModel bool
+	panicAt       string // where the panic that is currently unwinding was raised (diagnostics)
 
 	sched
 }
@@ -711,7 +714,11 @@ func runFrame(fr *frame) {
 				// unsupported construct, not a target behaviour
 				buf := make([]byte, 4096)
 				buf = buf[:runtime.Stack(buf, false)]
-				panic(runAbort{OutInternal, fmt.Sprintf("%s in %s: %s", msg, fr.fn, firstFrames(string(buf)))})
+				chain := ""
+				for c, n := fr.caller, 0; c != nil && c.fn != nil && n < 8; c, n = c.caller, n+1 {
+					chain += " < " + c.fn.String()
+				}
+				panic(runAbort{OutInternal, fmt.Sprintf("%s in %s%s: %s", msg, fr.fn, chain, firstFrames(string(buf)))})
 			}
 		case string:
 			if strings.HasPrefix(r, "interface conversion") || strings.HasPrefix(r, "value method") ||
@@ -722,6 +729,12 @@ func runFrame(fr *frame) {
 			}
 		default:
 			panic(runAbort{OutInternal, fmt.Sprintf("%v in %s", r, fr.fn)})
+		}
+		if !fr.panicking && fr.i.panicAt == "" {
+			fr.i.panicAt = fmt.Sprintf("%s (%s)", fr.fn, fr.i.prog.Fset.Position(fr.pos))
+			for c, n := fr.caller, 0; c != nil && c.fn != nil && n < 8; c, n = c.caller, n+1 {
+				fr.i.panicAt += " < " + c.fn.String()
+			}
 		}
 		fr.panicking = true
 		fr.panic = r
